@@ -14,6 +14,10 @@
 (*        insert abstract symbol y (a Lexer class) before character c       *)
 (*  ill   syntactically valid, ill-typed programs: group g, member i        *)
 (*  nest  construct k nested to depth d <= MaxDepth                         *)
+(*  lit   string / f-string literals whose body mixes plain text, multi-   *)
+(*        byte characters, valid and invalid escapes, doubled curlies and   *)
+(*        interpolations in every order (<= litlen ingredients)             *)
+(*  inf   programs whose types would have to be infinite                    *)
 (*  tree  module trees: route (memory FileSpec / on disk), root present or  *)
 (*        not, a subset of the file slots, one content kind for all files   *)
 (*                                                                          *)
@@ -29,7 +33,10 @@ Fam == ndJsonDeserialize(IOEnv.C06_FAMILIES)[1]
 VARIABLES input, stage
 mvars == <<phase, cited, shown, input, stage>>
 
-D(f, p) == [fam |-> f, p |-> p]
+(* must = "report": the input is erroneous by construction; at = <<s, e>>: byte range of the    *)
+(* erroneous text relative to the start of the generated literal (<<>>: not known)              *)
+DX(f, p, must, at) == [fam |-> f, p |-> p, must |-> must, at |-> at]
+D(f, p) == DX(f, p, "any", <<>>)
 Tuples(S, n) == UNION {[1..k -> S] : k \in 0..n}
 Elems(s) == {s[i] : i \in 1..Len(s)}
 
@@ -51,6 +58,36 @@ NestInputs(F) == {D("nest", <<k, d>>) : k \in 1..F.nnest, d \in {x \in Elems(F.d
 TreeInputs(F) == LET subsets == {x \in Tuples(1..F.nslot, F.maxfiles) : \A i \in 1..(Len(x) - 1) : x[i] < x[i + 1]}
                  IN {D("tree", <<r, root, content>> \o m) : r \in 1..2, root \in 0..1, content \in 1..F.ncontent, m \in subsets}
 
+(* lit: a string (kind 1) or f-string (kind 2) literal whose body is a sequence of <= litlen       *)
+(* ingredients (F.ing[i] = [w |-> byte width, cls |-> "plain" | "valid" (escape) | "bad" (invalid  *)
+(* escape, self-contained) | "open" (invalid escape whose extent depends on what follows) |       *)
+(* "curly" ({{ or }}) | "interp" ({x})]), terminated or not, after source prefix pre.  If the      *)
+(* literal is terminated and its first invalid escape is self-contained, compiling must report    *)
+(* exactly that escape: from its backslash (opening quote + widths of the ingredients before it)  *)
+(* to its end.                                                                                    *)
+Invalid(F, i) == F.ing[i].cls \in {"bad", "open"}
+FirstInvalid(F, t) == IF \E k \in 1..Len(t) : Invalid(F, t[k])
+                      THEN CHOOSE k \in 1..Len(t) : Invalid(F, t[k]) /\ \A j \in 1..(k - 1) : ~Invalid(F, t[j])
+                      ELSE 0
+RECURSIVE SumW(_, _, _)
+SumW(F, t, k) == IF k = 0 THEN 0 ELSE SumW(F, t, k - 1) + F.ing[t[k]].w
+LitInput(F, kind, term, pre, t) ==
+  LET k == FirstInvalid(F, t)
+      exact == term = 1 /\ k > 0 /\ F.ing[t[k]].cls = "bad"
+      off == (IF kind = 1 THEN 1 ELSE 2) + SumW(F, t, k - 1)
+  IN DX("lit", <<kind, term, pre>> \o t, IF exact THEN "report" ELSE "any",
+        IF exact THEN <<off, off + F.ing[t[k]].w>> ELSE <<>>)
+LitInputs(F) == {LitInput(F, kind, term, pre, t) : kind \in 1..2, term \in 0..1, pre \in 1..F.nlitpre,
+                                                  t \in Tuples(1..Len(F.ing), F.litlen)}
+
+(* inf: "infinite type" programs: a variable v whose element type is an inference variable        *)
+(* (1: `[]`, 2: `Option.None`) is unified, directly (st = 1) or through a let (st = 2), with a     *)
+(* term that contains v under the wrappers w (outermost first, <= infdepth of: list literal,       *)
+(* anonymous record, named record, Option.Some, enum constructor).  No finite type solves T =      *)
+(* W[..T..]: compiling must end in a report.                                                       *)
+InfInputs(F) == {DX("inf", <<v, st>> \o w, "report", <<>>) : v \in 1..F.ninfvar, st \in 1..2,
+                                                           w \in Tuples(1..F.nwrap, F.infdepth)}
+
 (* x is an input of one of the families (written as a disjunction: the sets are never united) *)
 IsInput(F, x) ==
   \/ \E i \in 1..Len(F.plans) : x \in SeqPlan(F, F.plans[i])
@@ -60,17 +97,25 @@ IsInput(F, x) ==
   \/ \E g \in 1..Len(F.ill) : x \in IllGroup(F, g)
   \/ x \in NestInputs(F)
   \/ x \in TreeInputs(F)
+  \* F.litfull = 0 (quick): unterminated literals only with <= 2 ingredients after the first prefix,
+  \* plain strings only after the first prefix
+  \/ x \in {y \in LitInputs(F) : F.litfull = 1 \/ (IF y.p[2] = 0 THEN y.p[3] = 1 /\ Len(y.p) <= 5
+                                                     ELSE y.p[3] = 1 \/ y.p[1] = 2)}
+  \/ x \in InfInputs(F)
 
 (* candidate spans of an abstract report over a file of 3 bytes "a" + 2-byte character *)
 Cand == {[file |-> 0, len |-> 3, start |-> s, end |-> e, ok |-> (s \in {0, 1, 3} /\ e \in {0, 1, 3})] : s \in 0..4, e \in 0..4}
 
 MCInit == Init /\ stage = "new" /\ IsInput(Fam, input)
 
+CandFor(x) == IF x.at = <<>> THEN Cand
+              ELSE {[file |-> 0, len |-> x.at[2], start |-> x.at[1], end |-> x.at[2], ok |-> TRUE]}
+
 Blank == D("", <<>>)    \* the outcome machine does not depend on which input it was: forget it after the first step
 
 MCNext ==
-  \/ stage = "new" /\ CompileOk /\ stage' = "done" /\ input' = Blank
-  \/ stage = "new" /\ (\E sp \in Cand : CompileReport(<<sp>>)) /\ stage' = "report" /\ input' = Blank
+  \/ stage = "new" /\ CompileOk(input.must) /\ stage' = "done" /\ input' = Blank
+  \/ stage = "new" /\ (\E sp \in CandFor(input) : CompileReport(<<sp>>, input.at)) /\ stage' = "report" /\ input' = Blank
   \/ stage = "report" /\ (\E c \in BOOLEAN : Render(c, 1, 1)) /\ stage' = (IF phase' = "idle" THEN "done" ELSE "report")
        /\ UNCHANGED input
 
